@@ -217,6 +217,35 @@ theorem pyEqItems_iff : ∀ a b : List (String × EVal),
       simp only [pyEqItems, Bool.and_eq_true, pyEqItems_iff a b, List.mem_cons, forall_eq_or_imp]
       cases EVal.lookup x.1 b <;> simp
 
+
+/-- dicts as mappings: `eq` on two dicts (distinct keys, any values) is: same class, same size, and every item of the left is
+found under its key on the right with an `eq` value - whatever the insertion orders -/
+theorem eq_dict_iff_aux (c d : Nat) (a b : List (String × EVal))
+    (ha : (a.map (·.1)).Nodup) (hb : (b.map (·.1)).Nodup) :
+    eq (.dict c a) (.dict d b) = true ↔
+      c = d ∧ a.length = b.length ∧ ∀ x ∈ a, ∃ w, EVal.lookup x.1 b = some w ∧ eq x.2 w = true := by
+  simp only [eq, EVal.norm, eqN]
+  rw [Bool.and_assoc, eqKeys_eqVals_eq_all2, Bool.and_eq_true, beq_iff_eq,
+    all2_sortK_iff eqN _ _ (by rw [keys_normKVs]; exact ha) (by rw [keys_normKVs]; exact hb),
+    length_normKVs, length_normKVs]
+  apply and_congr_right; intro _
+  apply and_congr_right; intro _
+  constructor
+  · intro hr x hx
+    obtain ⟨w, hw, hf⟩ := hr (x.1, x.2.norm) ((mem_normKVs _ a).2 ⟨x, hx, rfl⟩)
+    rw [lookup_normKVs] at hw
+    cases hl : EVal.lookup x.1 b with
+    | none => simp [hl] at hw
+    | some w' =>
+      rw [hl] at hw
+      simp only [Option.map_some, Option.some.injEq] at hw
+      subst hw
+      exact ⟨w', rfl, hf⟩
+  · intro hr x hx
+    obtain ⟨y, hy, rfl⟩ := (mem_normKVs x a).1 hx
+    obtain ⟨w, hw, hf⟩ := hr y hy
+    exact ⟨w.norm, by rw [lookup_normKVs, hw]; rfl, hf⟩
+
 /-! ### every dict has distinct keys (true of every python dict) -/
 
 mutual
